@@ -41,6 +41,12 @@ def records_for(inst, kernels, seed=0):
     sy, sx = [(1.0, 1.0), (0.5, 2.0), (0.1, 0.3)][int(rng.integers(0, 3))]
     oy, ox = [(0.0, 0.0), (1.5, -2.0), (-0.3, 0.7)][int(rng.integers(0, 3))]
     mask = aa.Mask2D(mask=m, pixel_scales=(sy, sx), origin=(oy, ox))
+    # history: a decoy mask with the same row-major contents but another shape (and one with the same shape and other
+    # contents) is inspected first; nothing it computed may leak into the judged mask
+    for shp in {(w, h), (1, h * w), (h * w, 1)} - {(h, w)}:
+        decoy = aa.Mask2D(mask=m.reshape(shp).copy(), pixel_scales=(sy, sx))
+        decoy.derive_indexes.edge_slim, decoy.derive_indexes.border_slim, decoy.derive_indexes.native_for_slim
+        decoy.derive_mask.edge, decoy.derive_mask.border
     di, dm, dg = mask.derive_indexes, mask.derive_mask, mask.derive_grid
     lin = lambda mk: [int(x) for x in np.flatnonzero(~np.asarray(mk, dtype=bool).ravel())]
     recs = []
